@@ -79,6 +79,17 @@ def run(ctx, prop):
     work = [("witness", w) for w in F.witness_cases(prop)]
     work.append(("gen", gen.coverage_case("C11-coverage")))
     work.append(("gen", gen.coverage_case3("C11-coverage3")))
+    # the usual Mink naming, in both spellings of the file name, with file-level declarations
+    # the interface uses (the Rust backend merges the interface into the file-level module)
+    for fname in ("ishape.idl", "IShape.idl", "Ishape.idl"):
+        nodes = [{"k": "const", "type": "uint32", "name": "SHAPE_MAX", "value": "16"},
+                 {"k": "struct", "name": "Point", "fields": [{"type": "uint32", "count": 1, "name": "x"}, {"type": "uint32", "count": 1, "name": "y"}]},
+                 {"k": "interface", "name": "IShape", "base": None, "members": [
+                     {"k": "method", "name": "move_to", "optional": False, "doc": None, "params": [{"dir": "in", "type": "Point", "arr": None, "name": "to"}, {"dir": "out", "type": "Point", "arr": None, "name": "was"}]},
+                     {"k": "method", "name": "outline", "optional": False, "doc": None, "params": [{"dir": "out", "type": "Point", "arr": "unbounded", "name": "pts"}]}]},
+                 {"k": "interface", "name": "IOther", "base": "IShape", "members": [
+                     {"k": "method", "name": "area", "optional": False, "doc": None, "params": [{"dir": "out", "type": "uint64", "arr": None, "name": "a"}]}]}]
+        work.append(("gen", {"id": f"C11-named-{fname}", "files": [{"path": fname, "nodes": nodes}], "main": fname, "incdirs": [], "no_java": True}))
     for i in range(n):
         work.append(("gen", fix_for_cpp(gen.gen_case(ctx.rng, c11_opts(), cid=f"C11-{ctx.seed}-{i}"))))
     configs = [("gcc", "g++", True), ("clang", "clang++", True), ("gcc", "g++", False)]
@@ -123,7 +134,7 @@ def run(ctx, prop):
                     distinct.add((key, u["unit"].split()[0]))
             # Java: on the subset the backend supports
             jc = java_subset(case)
-            if origin == "gen" and any(n_["k"] == "interface" and n_["members"] for f in jc["files"] for n_ in f["nodes"]):
+            if origin == "gen" and not case.get("no_java") and any(n_["k"] == "interface" and n_["members"] for f in jc["files"] for n_ in f["nodes"]):
                 jb = e3.build(jc, os.path.join(tmp, "wj"), ctx.idlc["debug"], valuations=1, seed=ctx.seed)
                 for u in jb["units"]:
                     hist["units"] += 1
